@@ -194,6 +194,13 @@ Theorem rrsig_wild_labels_mismatch_rejected : forall tbl r rrname rdclass rdtype
 Proof. exact make_rrsig_data_rejects_wild_mismatch. Qed.
 Print Assumptions rrsig_wild_labels_mismatch_rejected.
 
+(* ... and a well-formed encoding is determined by the set it stands for, so from_rdtypes returns
+   THE RFC 4034 4.1.2 encoding of the type set, octet for octet *)
+Theorem bitmap_unique : forall a b,
+  bitmap_wf a -> bitmap_wf b -> bitmap_types a = bitmap_types b -> a = b.
+Proof. exact bitmap_encoding_unique. Qed.
+Print Assumptions bitmap_unique.
+
 (* ---------- non-vacuity ---------- *)
 Example keytag_hyps_satisfiable :
   key_id 257 3 8 [1; 2; 3; 4; 5] = Ok (rfc_keytag (u16 257 ++ [3; 8] ++ [1; 2; 3; 4; 5]))
